@@ -199,8 +199,12 @@ def run_correspondence(mod, cases, obss, shard=300):
         shutil.rmtree(d)
     d.mkdir(parents=True)
     files = []
-    for k in range(0, len(cases), shard):
-        idxs = list(range(k, min(k + shard, len(cases))))
+    shard = getattr(mod, "SHARD", shard)
+    # cases whose implementation run failed inside the harness are not evaluated by the model: they are
+    # reported as harness errors (and count as disagreements) by check_property
+    live = [i for i in range(len(cases)) if not (isinstance(obss[i], dict) and "harness_error" in obss[i])]
+    for k in range(0, len(live), shard):
+        idxs = live[k:k + shard]
         terms = []
         for i in idxs:
             terms.append("(" + mod.coq_case(cases[i], obss[i]) + ", " + mod.coq_obs(cases[i], obss[i]) + ")")
